@@ -332,22 +332,43 @@ FAMILIES = [
     NulFamily("c14_reader_quit", ["C14"], SEARCHER, CORE_MOD, GEN,
               "reader strategy, quit detection: delivered is a PREFIX of the search of the input cut at the first NUL, no NUL "
               "reaches the sink, one binary notice at that offset, finish reports it; hit patterns x invert x (A,B) in "
-              "{(0,0),(1,1)} x fragmentation {(1,1),(4,2)} enumerated in-harness; line numbering symbolic",
+              "{(0,0),(1,1)} x fragmentation (1,1) enumerated in-harness; line numbering symbolic",
+              READER_FUNCS + ("ReadByLine::fill", "LineBuffer::fill"), heavy=True, timeout=1500, rules=searcher_rules(2),
+              unwind=lambda sh: 40),
+    NulFamily("c14_reader_quit_wide", ["C14"], SEARCHER, CORE_MOD, GEN,
+              "reader strategy, quit detection: delivered is a PREFIX of the search of the input cut at the first NUL, no NUL "
+              "reaches the sink, one binary notice at that offset, finish reports it; hit patterns x invert x (A,B) in "
+              "{(0,0),(1,1)} x fragmentation (4,2) enumerated in-harness; line numbering symbolic",
               READER_FUNCS + ("ReadByLine::fill", "LineBuffer::fill"), heavy=True, timeout=1500, rules=searcher_rules(2),
               unwind=lambda sh: 40),
     NulFamily("c14_reader_convert", ["C14"], SEARCHER, CORE_MOD, GEN,
               "reader strategy, convert detection: delivered == search of the input with every NUL replaced by the terminator + "
-              "one binary notice at the first NUL; enumerated as above, fragmentation {(1,1),(2,3)}",
+              "one binary notice at the first NUL; enumerated as above, fragmentation (1,1)",
+              READER_FUNCS + ("line_buffer::replace_bytes",), heavy=True, timeout=1500, rules=searcher_rules(2), two=True,
+              unwind=lambda sh: 40),
+    NulFamily("c14_reader_convert_wide", ["C14"], SEARCHER, CORE_MOD, GEN,
+              "reader strategy, convert detection: delivered == search of the input with every NUL replaced by the terminator + "
+              "one binary notice at the first NUL; enumerated as above, fragmentation (2,3)",
               READER_FUNCS + ("line_buffer::replace_bytes",), heavy=True, timeout=1500, rules=searcher_rules(2), two=True,
               unwind=lambda sh: 40),
     ShapeFamily("c02_reader_tiny", ["C02"], SEARCHER, CORE_MOD, GEN,
                 "ReadByLine over LineBufferReader, capacity 1 / 1-byte reads (a roll and a grow at every byte) == grep model "
-                "(== slice strategy); hit patterns x invert x (A,B) in {(0,0),(1,1)} enumerated in-harness; line numbering symbolic",
+                "(== slice strategy); hit patterns x (A,B) in {(0,0),(1,1)} enumerated in-harness; line numbering symbolic",
+                READER_FUNCS, timeout=1500, rules=searcher_rules(2), unwind=lambda sh: 40,
+                quick_shapes=["q_empty", "q_one_unterm", "q_blank", "q_two", "q_blank_mid", "q_blank_first", "q_crlf_blank", "q_nul", "z_nl_in_record"],
+                shape_filter=lambda sh: sh.nl <= 3 and len(sh.hay) <= 7),
+    ShapeFamily("c02_reader_tiny_inv", ["C02"], SEARCHER, CORE_MOD, GEN,
+                "ReadByLine over LineBufferReader, capacity 1 / 1-byte reads (a roll and a grow at every byte) == grep model "
+                "(== slice strategy); INVERTED; hit patterns x (A,B) in {(0,0),(1,1)} enumerated in-harness; line numbering symbolic",
                 READER_FUNCS, timeout=1500, rules=searcher_rules(2), unwind=lambda sh: 40,
                 quick_shapes=["q_empty", "q_one_unterm", "q_blank", "q_two", "q_blank_mid", "q_blank_first", "q_crlf_blank", "q_nul", "z_nl_in_record"],
                 shape_filter=lambda sh: sh.nl <= 3 and len(sh.hay) <= 7),
     ShapeFamily("c02_reader_wide", ["C02"], SEARCHER, CORE_MOD, GEN,
-                "reader strategy, fragmentation (2,3) and (4,2), contexts (1,0),(0,1), stop-on-nonmatch off/on (incl. final byte count "
+                "reader strategy, fragmentation (2,3), contexts (1,0),(0,1), stop-on-nonmatch off/on (incl. final byte count "
+                "== slice strategy's) == grep model", READER_FUNCS, timeout=1500, rules=searcher_rules(2), unwind=lambda sh: 40,
+                quick_shapes=["q_two", "q_blank_mid", "q_blank_last", "q_nul"], shape_filter=lambda sh: sh.nl <= 3 and len(sh.hay) <= 7),
+    ShapeFamily("c02_reader_wide2", ["C02"], SEARCHER, CORE_MOD, GEN,
+                "reader strategy, fragmentation (4,2), contexts (1,0),(0,1), stop-on-nonmatch off/on (incl. final byte count "
                 "== slice strategy's) == grep model", READER_FUNCS, timeout=1500, rules=searcher_rules(2), unwind=lambda sh: 40,
                 quick_shapes=["q_two", "q_blank_mid", "q_blank_last", "q_nul"], shape_filter=lambda sh: sh.nl <= 3 and len(sh.hay) <= 7),
     ShapeFamily("c02_reader_passthru", ["C02"], SEARCHER, CORE_MOD, GEN,
@@ -361,14 +382,29 @@ FAMILIES = [
                 unwind=lambda sh: 40, quick_shapes=["q_two", "q_blank_mid"], shape_filter=lambda sh: sh.nl <= 3 and len(sh.hay) <= 7),
     ShapeFamily("c16_slice", ["C16"], SEARCHER, CORE_MOD, GEN,
                 "slice strategy: sink refuses (stop) or fails at symbolic event index k: delivered == prefix of full "
-                "stream (+ exactly one finish after stop, none after error)",
-                SLOW_E2E_FUNCS, heavy=True, timeout=900, rules=searcher_rules(2), quick_shapes=["q_one", "q_two", "q_blank_mid", "q_crlf_mix", "q_four"], shape_filter=lambda sh: sh.nl <= 4 and len(sh.hay) <= 9),
-    ShapeFamily("c16_reader", ["C16"], SEARCHER, CORE_MOD, GEN,
-                "reader strategy: sink refuses or fails at symbolic event index k: prefix property",
-                READER_FUNCS, heavy=True, timeout=900, rules=searcher_rules(2), shape_filter=lambda sh: sh.nl <= 2 and len(sh.hay) <= 4),
+                "stream (+ exactly one finish after stop, none after error); symbolic hit table and configuration (A,B<=1)",
+                SLOW_E2E_FUNCS, heavy=True, timeout=900, rules=searcher_rules(2), quick_shapes=["q_one", "q_two", "q_blank_mid", "q_crlf_mix"], shape_filter=lambda sh: sh.nl <= 3 and len(sh.hay) <= 7),
+    ShapeFamily("c16_slice_before1", ["C16"], SEARCHER, CORE_MOD, GEN,
+                "slice strategy, contexts fixed to (A,B)=(0,1) (a separator ahead of a before-context line needs 4 lines): sink refuses or "
+                "fails at symbolic event index k, symbolic hit table: prefix property",
+                SLOW_E2E_FUNCS, heavy=True, timeout=900, rules=searcher_rules(1), quick_shapes=["q_four"], shape_filter=lambda sh: sh.nl == 4),
+    ShapeFamily("c16_slice_after1", ["C16"], SEARCHER, CORE_MOD, GEN,
+                "slice strategy, contexts fixed to (A,B)=(1,0): sink refuses or fails at symbolic event index k, symbolic hit table: prefix property",
+                SLOW_E2E_FUNCS, heavy=True, timeout=900, rules=searcher_rules(1), quick_shapes=["q_four"], shape_filter=lambda sh: sh.nl == 4),
+    ShapeFamily("c16_reader_stop", ["C16"], SEARCHER, CORE_MOD, GEN,
+                "reader strategy (capacity 1, 1-byte reads): sink refuses at every event index k: prefix + exactly one finish; hit pattern x "
+                "(A,B) in {(0,0),(1,1)} x invert x k enumerated in-harness, line numbering symbolic",
+                READER_FUNCS, timeout=1500, rules=searcher_rules(2), unwind=lambda sh: 40,
+                quick_shapes=["q_one", "q_two", "q_blank"], shape_filter=lambda sh: sh.nl <= 2 and len(sh.hay) <= 4),
+    ShapeFamily("c16_reader_error", ["C16"], SEARCHER, CORE_MOD, GEN,
+                "reader strategy: sink fails at every event index k: error returned, prefix, no finish; enumerated as above",
+                READER_FUNCS, timeout=1500, rules=searcher_rules(2), unwind=lambda sh: 40,
+                quick_shapes=["q_one", "q_two"], shape_filter=lambda sh: sh.nl <= 2 and len(sh.hay) <= 4),
     ShapeFamily("c16_reader_ioerr", ["C16"], SEARCHER, CORE_MOD, GEN,
-                "reader strategy: read() fails (Other/Interrupted) at symbolic call index j: error returned, no finish, prefix",
-                READER_FUNCS, heavy=True, timeout=900, rules=searcher_rules(2), shape_filter=lambda sh: sh.nl <= 2 and len(sh.hay) <= 4),
+                "reader strategy: read() fails (Other and Interrupted) at every call index j: error returned, no finish, prefix; "
+                "hit pattern x (A,B) in {(0,0),(1,1)} x j x kind enumerated in-harness",
+                READER_FUNCS, timeout=1500, rules=searcher_rules(2), unwind=lambda sh: 40,
+                quick_shapes=["q_one", "q_two"], shape_filter=lambda sh: sh.nl <= 2 and len(sh.hay) <= 4),
     ShapeFamily("c13_multiline", ["C13"], SEARCHER, CORE_MOD, GEN,
                 "MultiLine::run == lines covered by the successive matches of a span table (merged runs, contexts, invert, "
                 "passthru, numbering); EVERY span table of the shape (<=3 bytes) / every table with <=2 match starts (4-5 bytes) "
